@@ -128,3 +128,26 @@ func symDirInfo(tag string) types.SMB_DIRECTORY_INFORMATION {
 	v.FileName = *types.NewOEM_STRINGFromString(string(name))
 	return *v
 }
+
+// Buffers handed to a command are cut from larger arrays of the caller's (two more bytes follow each of them); encoding
+// the command reads them only, so the bytes behind every buffer are the same afterwards.
+type c04spare struct {
+	backing []byte
+	n       int
+	t0, t1  byte
+}
+
+var c04spares []c04spare
+
+func vSpare(tag string, n int) []byte {
+	b := vBytes(tag, n+2)
+	c04spares = append(c04spares, c04spare{b, n, b[n], b[n+1]})
+	return b[:n]
+}
+
+func checkSpares(id string) {
+	for _, s := range c04spares {
+		vCheck(s.backing[s.n] == s.t0 && s.backing[s.n+1] == s.t1, "C04/"+id+"/marshal-leaves-the-bytes-behind-the-caller's-buffers-alone")
+	}
+	c04spares = nil
+}
